@@ -69,6 +69,19 @@ def items(tier):
             for jobs in (2, 3):
                 for kinds in (["cmd"] * n, ["exp"] * n):
                     out.append({"case": {"g": g, "kinds": kinds, "pars": [True] * n, "jobs": jobs, "fails": {str(failing): ["launch"]}}, "bound": 1})
+    # every 4- and 5-task graph in every listing order, all completion orders
+    for g in rungrid.graphs_upto((4, 5)):
+        out.append({"case": {"g": g, "kinds": ["cmd"] * len(g), "pars": [True] * len(g), "jobs": 2, "fails": {}}, "bound": 0})
+    # some dependencies satisfied by cached versions (their operations are pruned from the plan)
+    for g in rungrid.graphs_upto((2, 3)):
+        n = len(g)
+        for kinds in (["cmd"] + ["exp"] * (n - 1), ["exp"] * n, ["combine"] + ["exp"] * (n - 1)):
+            exps = [i for i in range(1, n) if kinds[i] == "exp"]
+            for r in range(1, len(exps) + 1):
+                for sub_ in __import__("itertools").combinations(exps, r):
+                    for jobs in (1, 2):
+                        out.append({"case": {"g": g, "kinds": kinds, "pars": [k != "combine" and jobs > 1 for k in kinds], "jobs": jobs,
+                                             "fails": {}, "cached": list(sub_)}, "bound": 1 if jobs > 1 else 0})
     out.append({"kind": "kernel-semantics"})
     for case in rungrid.conformance_cases(tier):
         out.append({"case": case, "bound": 0, "conform": True})
